@@ -160,6 +160,44 @@ def supCase (mode th rd bds fo fa to ta : String) : Verdict :=
   | _, _ => bad "C10.sup dumps"
 
 
+/-- one call of ONE function inside a session (several calls in one process sharing a `Supporter`
+    and/or the reference tree object): `rd` is the α dump of the reference just before this call —
+    it may carry the names blanked and the supports written by the previous call.  The result must
+    be what the definitions give for (that reference, this collection): no state of an earlier call
+    may leak.  `kind` = fbp | tbe, `pos` = position of the call in the session, `share` = what is shared. -/
+def stepCase (kind th pos share rd bds out after : String) : Verdict :=
+  match T.undump rd, parseDumps bds with
+  | some r, some bs =>
+    let a? := if after == "" then none else T.undump after
+    if after != "" && a?.isNone then bad "C10.step after dump" else
+    let uniq := specUniq r && bs.all specUniq
+    let wf := specWf r && bs.all specWf
+    let mismatch := bs.any fun b => !sameTaxa r b
+    let ids := parserIds r
+    let thN : Int := th.toInt?.getD 1
+    let isF := kind == "fbp"
+    let tags := ["session", "session-" ++ kind, "threads=" ++ th, "session-call-" ++ pos, "session-share-" ++ share] ++
+      tagIf (((a?.map supsOf).getD []).any between) "nontrivial" ++ tagIf mismatch "mismatch" ++
+      tagIf (r.splits.any fun s => !s.tip && s.e.sup != NIL) "ref-has-supports" ++
+      tagIf (hypOK r bs && idsInRange r) "hyp-hypOK+idsInRange"
+    let gate := uniq && wf && !bs.isEmpty && (isF || ids)
+    let orc : Option String :=
+      if !gate then none
+      else if mismatch then
+        (if !taxaError out then some (kind ++ " (call " ++ pos ++ " of a session): bootstrap tree on other taxa not rejected as such (outcome " ++ out ++ ")") else none)
+      else if isF then checkOne ("FBP (call " ++ pos ++ " of a session sharing " ++ share ++ ")") fbpOK r bs out a?
+      else checkOne ("TBE (call " ++ pos ++ " of a session sharing " ++ share ++ ")") tbeOK r bs out a?
+    match orc with
+    | some m => ⟨.oracle, tags, m⟩
+    | none =>
+      let t := if isF then tieOne "FBP" (fbpCfg thN r bs) out a? approxRelOrEq else tieOne "TBE" (tbeCfg thN r bs) out a? approxAbs
+      match t with
+      | some m => ⟨.tie, tags, m⟩
+      | none =>
+        if fidelityDiff r a? then ⟨.tie, tags, kind ++ ": the annotated reference is not the model's"⟩
+        else ⟨.pass, tags, ""⟩
+  | _, _ => bad "C10.step dumps"
+
 def parseItems (s : String) : List (Item String) :=
   (splitTerm "|" s).map fun x =>
     if x == "B" then .blank else if x == "J" then .junk
@@ -271,6 +309,7 @@ def logCase (rd bds cs out raws taxas brs : String) : Verdict :=
 def handle (op : String) (f : List String) : Verdict :=
   match op, f with
   | "log", [rd, bds, cs, out, raws, taxas, brs] => logCase rd bds cs out raws taxas brs
+  | "step", [kind, th, pos, share, rd, bds, out, after, _session] => stepCase kind th pos share rd bds out after
   | "cli", [th, refItems, bootItems, fo, fa, to, ta] => cliCase th refItems bootItems fo fa to ta
   | "sup", [mode, rd, bds, fo, fa, to, ta] => supCase mode "1" rd bds fo fa to ta
   | "supt", [mode, th, rd, bds, fo, fa, to, ta] => supCase mode th rd bds fo fa to ta
